@@ -68,7 +68,7 @@ def run_program(tier, idx, prog=None, plan=None, seed=None):
         sent = I(SENTINEL)
         desc = sk.describe(f, I)
         inst_first = prog['kind'] == 'unbound'
-        try: sig = inspect.signature(f)
+        try: sig = inspect.signature(f, follow_wrapped=False)
         except (ValueError, TypeError): sig = None      # e.g. a partial that can never be called
         recs, viol = [], []
         tags = collections.Counter()
@@ -183,7 +183,8 @@ def run_program(tier, idx, prog=None, plan=None, seed=None):
                 call = dict(ign=ignj, args=[I(x) for x in a], kwds=[[I(n), I(v)] for n, v in k.items()], selfLike=sl)
                 # --- _keygen
                 try:
-                    ua, uk = _keygen(f, ign, *a, **k)
+                    # (every other call group hands the specification over as a list built for this one call, as `ignore=[...]` literals do)
+                    ua, uk = _keygen(f, list(ign) if ci % 2 else ign, *a, **k)
                     rec['keygen'] = dict(va=[I(x) for x in ua], kw=[[I(n), I(v)] for n, v in uk.items()])
                 except Exception as e:
                     rec['keygen'] = dict(exc=exc_name(e)); ua = uk = None
@@ -250,7 +251,7 @@ def run_program(tier, idx, prog=None, plan=None, seed=None):
                         import klepto, klepto.safe
                         mod, nm = DECORATORS[idx % 12]
                         D = getattr(klepto.safe if mod == 'safe' else klepto, nm)
-                        ignarg = ign[0] if (len(ign) == 1 and (idx // 12) % 2 == 0) else (ign if ign else None)
+                        ignarg = ign[0] if (len(ign) == 1 and (idx // 12) % 2 == 0) else ((list(ign) if ci % 2 else ign) if ign else None)
                         d = D(keymap=sk.make_km(kmk, kmo), ignore=ignarg)(f)
                         ent['key'] = d.key(*a, **k)
                     except Exception as e:
